@@ -76,6 +76,7 @@ type ClientSpec struct {
 	WFault    []world.WriteFault `json:"wfault,omitempty"`
 	Real      bool               `json:"real,omitempty"`      // ops run through tacquito.Client
 	ReusePkt  bool               `json:"reuse_pkt,omitempty"` // Real: the caller refills one packet object for every request
+	Scripted  bool               `json:"scripted,omitempty"`  // bytes reach the server only through this client's pace ops (segmentation by script, not by tape)
 	// SrvScript: for Real clients talking to a model server: replies the model server
 	// writes, one list per request received.
 	SrvReplies []SrvReply `json:"srv_replies,omitempty"`
@@ -85,10 +86,13 @@ type ClientSpec struct {
 
 // Op is one step of a client script.
 type Op struct {
-	Kind string   `json:"kind"` // send | raw | await | close | reset | idle
+	Kind string   `json:"kind"` // send | raw | await | close | reset | idle | pace
 	Pkt  *PktSpec `json:"pkt,omitempty"`
 	Raw  []byte   `json:"raw,omitempty"`
 	N    int      `json:"n,omitempty"`
+	// pace: everything the client has written except its last Keep bytes reaches the
+	// server in one segment, then N milliseconds pass
+	Keep int `json:"keep,omitempty"`
 	// Sess/Step annotate which logical session script this op belongs to (C09).
 	Sess int `json:"sess,omitempty"`
 }
